@@ -262,28 +262,28 @@ func (x *Ctx) hintRules(r *core.Result, rs *core.RuleStat) {
 		r.Undecided(rs, "hints", "-", fmt.Sprintf("only %d size-hint fields found (expected >= 3: the prediction mechanism is the property's anchor)", len(hints)))
 	}
 	funcs := w.SrcFuncs()
-	// all stores per hint field
+	// all stores per hint field, seen from the functions that perform them directly or through private helpers
+	// (a helper whose callers are all library functions is accounted for in its callers, not on its own)
 	type storeInfo struct {
 		fn *ssa.Function
-		st *ssa.Store
-		fa *ssa.FieldAddr
+		fs FieldStore
 	}
 	stores := map[int][]storeInfo{}
 	for _, fn := range funcs {
-		for _, b := range fn.Blocks {
-			for _, ins := range b.Instrs {
-				if s, ok := ins.(*ssa.Store); ok {
-					if fa, ok := s.Addr.(*ssa.FieldAddr); ok && structOfType(fa.X.Type()) == st && hints[fa.Field] {
-						stores[fa.Field] = append(stores[fa.Field], storeInfo{fn, s, fa})
-					}
-				}
+		if x.absorbedHelper(fn) {
+			continue
+		}
+		for _, fs := range x.fieldStores(fn) {
+			fa, ok := fs.Store.Addr.(*ssa.FieldAddr)
+			if ok && structOfType(fa.X.Type()) == st && hints[fa.Field] {
+				stores[fa.Field] = append(stores[fa.Field], storeInfo{fn, fs})
 			}
 		}
 	}
 	// borrow function: returns *ValueReader obtained from the pool / fresh
-	isBorrowResult := func(v ssa.Value) *ssa.Function {
-		if c, ok := v.(*ssa.Call); ok {
-			if callee := c.Call.StaticCallee(); callee != nil && w.InLib(callee) && callee.Signature.Results().Len() == 1 && structOfType(callee.Signature.Results().At(0).Type()) == st {
+	isBorrowResult := func(v *RX) *ssa.Function {
+		if v != nil && v.Call != nil && v.Idx == -1 {
+			if callee := v.Call.Call.StaticCallee(); callee != nil && w.InLib(callee) && callee.Signature.Results().Len() == 1 && structOfType(callee.Signature.Results().At(0).Type()) == st {
 				return callee
 			}
 		}
@@ -302,12 +302,12 @@ func (x *Ctx) hintRules(r *core.Result, rs *core.RuleStat) {
 		childOnly := true
 		var borrowFn *ssa.Function
 		for _, s := range ss {
-			if bf := isBorrowResult(s.fa.X); bf != nil {
+			if bf := isBorrowResult(s.fs.Base); bf != nil {
 				borrowFn = bf
 				continue
 			}
 			// inside a borrow function: base is the value it returns
-			if s.fn.Signature.Results().Len() == 1 && structOfType(s.fn.Signature.Results().At(0).Type()) == st && len(s.fn.Params) > 0 && s.fa.X != ssa.Value(s.fn.Params[0]) {
+			if s.fn.Signature.Results().Len() == 1 && structOfType(s.fn.Signature.Results().At(0).Type()) == st && len(s.fn.Params) > 0 && !s.fs.Base.isLeaf(s.fn.Params[0]) {
 				if borrowFn == nil {
 					borrowFn = s.fn
 				}
@@ -325,13 +325,9 @@ func (x *Ctx) hintRules(r *core.Result, rs *core.RuleStat) {
 					continue
 				}
 				found := false
-				for d := b; d != nil && !found; d = d.Idom() {
-					for _, ins := range d.Instrs {
-						if s, isS := ins.(*ssa.Store); isS {
-							if fa, isF := s.Addr.(*ssa.FieldAddr); isF && fa.Field == f && fa.X == ret.Results[0] && isRefreshValue(s.Val, map[ssa.Value]bool{}) {
-								found = true
-							}
-						}
+				for _, fs := range x.fieldStores(borrowFn) {
+					if fs.Field == name && fs.Always && fs.Base.isLeaf(ret.Results[0]) && (fs.At == b || fs.At.Dominates(b)) && isRefreshRX(fs.Val) {
+						found = true
 					}
 				}
 				if !found {
@@ -375,7 +371,24 @@ func fnKey(fn *ssa.Function) string {
 
 // refreshPostDominates: every path from the load to a function exit passes a store to field f of base with a refresh value.
 func (x *Ctx) refreshPostDominates(fn *ssa.Function, load *ssa.UnOp, base ssa.Value, f int) string {
+	// refresh points: direct stores, and calls of private helpers that perform such a store on every path
+	viaHelper := map[ssa.Instruction]bool{}
+	ubase := unspill(base)
+	for _, fs := range x.fieldStores(fn) {
+		fa, ok := fs.Store.Addr.(*ssa.FieldAddr)
+		if !ok || fa.Field != f || !fs.Always || !fs.Base.isLeaf(ubase) || !isRefreshRX(fs.Val) {
+			continue
+		}
+		if fs.At != nil && fs.Idx < len(fs.At.Instrs) {
+			if _, isCall := fs.At.Instrs[fs.Idx].(*ssa.Call); isCall {
+				viaHelper[fs.At.Instrs[fs.Idx]] = true
+			}
+		}
+	}
 	isRefresh := func(ins ssa.Instruction) bool {
+		if viaHelper[ins] {
+			return true
+		}
 		s, ok := ins.(*ssa.Store)
 		if !ok {
 			return false
@@ -520,4 +533,39 @@ func sameObject(a, b ssa.Value) bool {
 		}
 	}
 	return stores == 1
+}
+
+
+// isRefreshRX: a constant or the length of something (possibly merged by phis) — never a value carried over.
+func isRefreshRX(v *RX) bool {
+	if v == nil || v.Load != nil || v.X != nil {
+		return false
+	}
+	if v.Call != nil {
+		return false
+	}
+	return isRefreshValue(v.V, map[ssa.Value]bool{})
+}
+
+// absorbedHelper: a private helper all of whose callers are static calls from library functions — the inline view
+// (fieldStores) accounts for what it does in each caller's frame.
+func (x *Ctx) absorbedHelper(fn *ssa.Function) bool {
+	if !x.isPrivateHelper(fn) {
+		return false
+	}
+	node := x.W.CG().Nodes[fn]
+	if node == nil || len(node.In) == 0 {
+		return false
+	}
+	for _, e := range node.In {
+		c := e.Caller.Func
+		if c == nil || !x.W.InLib(c) {
+			return false
+		}
+		call, ok := e.Site.(*ssa.Call)
+		if !ok || call.Call.StaticCallee() != fn {
+			return false
+		}
+	}
+	return true
 }
